@@ -72,6 +72,10 @@ func genC14(t *rapid.T) c14Case {
 		at := rapid.IntRange(0, len(c.Reqs)-1).Draw(t, "goneat")
 		c.Reqs[at].Kind = "clientgone"
 	}
+	if (c.Server == "nats" || c.Server == "loop") && rapid.IntRange(0, 3).Draw(t, "hugename?") == 0 {
+		at := rapid.IntRange(0, len(c.Reqs)-1).Draw(t, "hugeat")
+		c.Reqs[at].Kind = "unknown-huge"
+	}
 	if c.Server == "nats" {
 		for i, k := 0, rapid.IntRange(0, 2).Draw(t, "nbig"); i < k; i++ {
 			at := rapid.IntRange(0, len(c.Reqs)-1).Draw(t, "bigat")
@@ -143,6 +147,9 @@ func c14FrameL(proto string, kind string, id int, size int) (frame []byte, opid 
 		msg = thriftMessage(proto, "echo", thrift.CALL, &strStruct{Name: "echo_args", ID: 1, V: &arg})
 	case "oneway":
 		msg = thriftMessage(proto, "fire", thrift.ONEWAY, &strStruct{Name: "fire_args", ID: 1, V: &arg})
+	case "unknown-huge":
+		// an unknown method whose name takes most of a NATS message: the reply still has to fit
+		msg = thriftMessage(proto, strings.Repeat("m", 600*1024), thrift.CALL, &shapeStruct{Fields: []shapeField{{"string", 3}}})
 	case "unknown", "unknown-stalled":
 		msg = thriftMessage(proto, "nosuch", thrift.CALL, &shapeStruct{Fields: []shapeField{{"string", 3}, {"list", 2}, {"struct", 1}}})
 	case "missing":
@@ -228,7 +235,7 @@ func checkReply(proto, kind string, id int, opid string, content []byte) *ev.Fai
 		wantEx = frugal.APPLICATION_EXCEPTION_INTERNAL_ERROR
 	case "appex":
 		wantEx = 42
-	case "unknown", "unknown-stalled":
+	case "unknown", "unknown-stalled", "unknown-huge":
 		wantEx = frugal.APPLICATION_EXCEPTION_UNKNOWN_METHOD
 	case "missing", "wrongtype", "truncated":
 		wantEx = frugal.APPLICATION_EXCEPTION_PROTOCOL_ERROR
